@@ -3,12 +3,18 @@
 package lifecycle
 
 import (
+	"context"
 	"encoding/binary"
+	"encoding/json"
 	"fmt"
 	"net"
+	"net/http"
+	"net/http/httptest"
 	"reflect"
 	"sort"
 	"strings"
+	"sync"
+	"sync/atomic"
 	"testing/synctest"
 	"time"
 
@@ -16,6 +22,7 @@ import (
 	"github.com/codelaboratoryltd/bng/pkg/dhcp"
 	"github.com/codelaboratoryltd/bng/pkg/ebpf"
 	"github.com/codelaboratoryltd/bng/pkg/nat"
+	"github.com/codelaboratoryltd/bng/pkg/nexus"
 	"github.com/codelaboratoryltd/bng/pkg/qos"
 	bngradius "github.com/codelaboratoryltd/bng/pkg/radius"
 	"github.com/insomniacslk/dhcp/dhcpv4"
@@ -29,6 +36,17 @@ import (
 // qos.Manager (+ radius.PolicyManager with the default policies), ebpf.Loader writing REAL
 // kernel maps, real radius.Client talking to the scripted peer. Clients are direct or relayed
 // (giaddr + option 82 circuit-id). Virtual time: pool lease time 1 h.
+//
+// Renewals: RENEW c is the bound client's REQUEST with ciaddr = the address it was last ACKed.
+// A relayed client's renewal (RENEWRID) travels through a relay agent that inserts an option 82
+// with only a remote-id (sub-option 2, no circuit-id) - the session's circuit-id keyed state must
+// still be found and removed by whatever ends the session afterwards.
+//
+// Variant "nexus" (system name dhcp-nexus/...): the server is additionally configured with
+// SetHTTPAllocator (walled-garden / Nexus mode, as cmd/bng does when --nexus-url is set: health
+// check, pool info, SetHTTPAllocator) against the fake Nexus below (startFakeNexus), which knows the pool
+// but has no allocation for anybody (404): every subscriber is "not activated" and is served
+// from the local pool. Same alphabet, same observation.
 
 const dhcpLease = time.Hour
 
@@ -37,25 +55,43 @@ type DHCPSys struct {
 	Kinds  []string // per client: "direct" | "relay"
 	CIDR   string
 	NUnits int
+	Nexus  bool // walled-garden mode: SetHTTPAllocator against the fake Nexus (nobody activated)
 	events []core.Event
 }
 
 func NewDHCPSys(kinds []string, cidr string, nunits int) *DHCPSys {
 	s := &DHCPSys{Kinds: kinds, CIDR: cidr, NUnits: nunits}
 	for c := 1; c <= len(kinds); c++ {
+		renew := "RENEW"
+		if kinds[c-1] == "relay" {
+			renew = "RENEWRID"
+		}
 		s.events = append(s.events,
-			ev("DISC", c, "none", true, 1), ev("REQSEL", c, "none", true, 1),
+			ev("DISC", c, "none", true, 1), ev("REQSEL", c, "none", true, 1), ev(renew, c, "none", true, 1),
 			ev("RELEASE", c, "release", false, 1), ev("DECLINE", c, "decline", false, 1), ev("EXPIRE", c, "expiry", false, 1))
 	}
 	s.events = append(s.events, ev("EXPIRE", 0, "expiry", false, 1))
 	return s
 }
 
+// NewDHCPNexusSys is the walled-garden variant of NewDHCPSys.
+func NewDHCPNexusSys(kinds []string, cidr string, nunits int) *DHCPSys {
+	s := NewDHCPSys(kinds, cidr, nunits)
+	s.Nexus = true
+	return s
+}
+
 func (s *DHCPSys) Name() string {
+	if s.Nexus {
+		return fmt.Sprintf("dhcp-nexus/%s/%s", strings.Join(s.Kinds, "+"), s.CIDR)
+	}
 	return fmt.Sprintf("dhcp/%s/%s", strings.Join(s.Kinds, "+"), s.CIDR)
 }
 func (s *DHCPSys) Config() map[string]any {
-	return map[string]any{"impl": "dhcp.Server", "nsess": len(s.Kinds), "nunits": s.NUnits, "kinds": s.Kinds}
+	if s.Nexus { // own implementation name: own violation groups, own non-vacuity requirements
+		return map[string]any{"impl": "dhcp.Server+HTTPAllocator", "nsess": len(s.Kinds), "nunits": s.NUnits, "kinds": s.Kinds, "nexus": true}
+	}
+	return map[string]any{"impl": "dhcp.Server", "nsess": len(s.Kinds), "nunits": s.NUnits, "kinds": s.Kinds, "nexus": s.Nexus}
 }
 func (s *DHCPSys) Events() []core.Event { return s.events }
 
@@ -78,6 +114,48 @@ func (s *DHCPSys) unitOf(ip net.IP) int {
 		return -2
 	}
 	return int(v)
+}
+
+// The fake Nexus: one process-wide httptest server on loopback. Like the RADIUS peer it runs
+// OUTSIDE every synctest bubble (started from the test entry); the server under test reaches
+// it with the real nexus.HTTPAllocator over real TCP. It knows the pool and has no allocation
+// for anybody. Every response closes its connection: a kept-alive connection would leave the
+// transport's read loop (network I/O is not durably blocking) inside the bubble, and
+// synctest.Wait() would never return.
+const nexusPoolID = "subscribers"
+
+var (
+	nexusOnce sync.Once
+	nexusSrv  *httptest.Server
+	nexusHits atomic.Int64 // allocation lookups answered "no allocation" (evidence that the mode is exercised)
+)
+
+// startFakeNexus must be called from outside any synctest bubble.
+func startFakeNexus() {
+	nexusOnce.Do(func() {
+		nexusSrv = httptest.NewServer(http.HandlerFunc(func(w http.ResponseWriter, r *http.Request) {
+			w.Header().Set("Connection", "close")
+			switch {
+			case r.URL.Path == "/health":
+				w.WriteHeader(http.StatusOK)
+			case r.URL.Path == "/api/v1/pools/"+nexusPoolID:
+				w.Header().Set("Content-Type", "application/json")
+				json.NewEncoder(w).Encode(nexus.PoolResponse{ID: nexusPoolID, CIDR: "100.64.0.0/24", Prefix: 32})
+			case r.Method == http.MethodGet && strings.HasPrefix(r.URL.Path, "/api/v1/allocations/"):
+				nexusHits.Add(1)
+				http.NotFound(w, r) // not activated
+			default:
+				http.NotFound(w, r)
+			}
+		}))
+	})
+}
+
+func fakeNexusURL() string {
+	if nexusSrv == nil {
+		panic("INFRA: fake Nexus not started")
+	}
+	return nexusSrv.URL
 }
 
 func dmac(c int) net.HardwareAddr { return net.HardwareAddr{0x02, 0, 0, 0, 0, byte(c)} }
@@ -122,6 +200,8 @@ type dhcpInst struct {
 	// client-side protocol memory
 	lastOffer map[int]int
 	lastAddr  map[int]int // the address last ACKed to the client (kept after the session ended, for the second end)
+	bound     map[int]bool // the client believes it holds a lease: ACKed, and since then it neither released / declined nor let the lease run out
+	ridOnly   bool         // build the next relayed message with an option 82 that has no circuit-id
 }
 
 func (s *DHCPSys) New() core.Instance {
@@ -130,7 +210,7 @@ func (s *DHCPSys) New() core.Instance {
 	if err != nil {
 		panic(err)
 	}
-	in := &dhcpInst{s: s, loader: loader, maps: map[string]*cebpf.Map{}, conn: &capConn{}, lastOffer: map[int]int{}, lastAddr: map[int]int{}}
+	in := &dhcpInst{s: s, loader: loader, maps: map[string]*cebpf.Map{}, conn: &capConn{}, lastOffer: map[int]int{}, lastAddr: map[int]int{}, bound: map[int]bool{}}
 	for _, cm := range cacheMaps {
 		km, err := bpfnative.NewKernelMap(bpfnative.MapInfo{Name: cm.name, Type: int(cebpf.Hash), KeySize: cm.k, ValueSize: cm.v, MaxEntries: 64})
 		if err != nil {
@@ -174,6 +254,16 @@ func (s *DHCPSys) New() core.Instance {
 		panic(err)
 	}
 	srv.SetNATManager(nm)
+	if s.Nexus { // as cmd/bng with --nexus-url: connectivity check, pool info, then SetHTTPAllocator
+		ha := nexus.NewHTTPAllocator(fakeNexusURL())
+		if err := ha.HealthCheck(context.Background()); err != nil {
+			panic(fmt.Sprintf("INFRA: fake Nexus not reachable: %v", err))
+		}
+		if _, err := ha.GetPoolInfo(context.Background(), nexusPoolID); err != nil {
+			panic(fmt.Sprintf("INFRA: fake Nexus pool: %v", err))
+		}
+		srv.SetHTTPAllocator(ha, nexusPoolID)
+	}
 	in.srv, in.pool, in.natm, in.qosm = srv, p, nm, qm
 	in.acct = &acctCounter{nas: nas}
 	for c := 1; c <= len(s.Kinds); c++ {
@@ -197,7 +287,11 @@ func (in *dhcpInst) build(c int, mt dhcpv4.MessageType, reqIP, ciaddr net.IP) *d
 	}
 	if in.s.Kinds[c-1] == "relay" {
 		mods = append(mods, dhcpv4.WithGatewayIP(net.IPv4(10, 9, 9, 1)))
-		mods = append(mods, dhcpv4.WithOption(dhcpv4.OptRelayAgentInfo(dhcpv4.OptGeneric(dhcpv4.GenericOptionCode(1), dcid(c)))))
+		if in.ridOnly {
+			mods = append(mods, dhcpv4.WithOption(dhcpv4.OptRelayAgentInfo(dhcpv4.OptGeneric(dhcpv4.GenericOptionCode(2), []byte("agent-7")))))
+		} else {
+			mods = append(mods, dhcpv4.WithOption(dhcpv4.OptRelayAgentInfo(dhcpv4.OptGeneric(dhcpv4.GenericOptionCode(1), dcid(c)))))
+		}
 	}
 	m, err := dhcpv4.New(mods...)
 	if err != nil {
@@ -245,6 +339,22 @@ func (in *dhcpInst) Apply(e core.Event) map[string]any {
 		if rt == "ACK" {
 			acked = true
 			in.lastAddr[c] = ru
+			in.bound[c] = true
+		}
+	case "RENEW", "RENEWRID": // a BOUND client renews: ciaddr = the address it holds
+		a, ok := in.lastAddr[c]
+		if !in.bound[c] || !ok || a < 0 {
+			skipped = true
+			break
+		}
+		in.ridOnly = op == "RENEWRID"
+		rt, ru := in.send(in.build(c, dhcpv4.MessageTypeRequest, nil, s.unitIP(a)))
+		in.ridOnly = false
+		if rt == "ACK" {
+			acked = true
+			in.lastAddr[c] = ru
+		} else {
+			in.toInit(c) // NAK (or silence): back to INIT
 		}
 	case "RELEASE":
 		var ci net.IP
@@ -252,6 +362,7 @@ func (in *dhcpInst) Apply(e core.Event) map[string]any {
 			ci = s.unitIP(a)
 		}
 		in.send(in.build(c, dhcpv4.MessageTypeRelease, nil, ci))
+		in.toInit(c)
 	case "DECLINE": // of the address the client was ACKed (or, before any ACK, offered)
 		a, ok := in.lastAddr[c]
 		if !ok {
@@ -262,19 +373,28 @@ func (in *dhcpInst) Apply(e core.Event) map[string]any {
 			break
 		}
 		in.send(in.build(c, dhcpv4.MessageTypeDecline, s.unitIP(a), nil))
+		in.toInit(c)
 	case "EXPIRE":
 		// c = 0: every lease runs out. c > 0: only client c lets its lease run out, every other
 		// client that has a lease renews it half-way.
 		if c == 0 {
 			time.Sleep(dhcpLease + dhcpLease/5)
+			for d := 1; d <= n; d++ {
+				in.toInit(d)
+			}
 		} else {
 			time.Sleep(dhcpLease * 3 / 5)
 			byMAC, _ := in.srv.VerifLeases()
 			for d := 1; d <= n; d++ {
+				renewed := false
 				for _, l := range byMAC {
 					if d != c && l.MAC == dmac(d).String() { // a renewal only keeps an existing binding alive
-						in.send(in.build(d, dhcpv4.MessageTypeRequest, nil, l.IP))
+						rt, _ := in.send(in.build(d, dhcpv4.MessageTypeRequest, nil, l.IP))
+						renewed = rt == "ACK"
 					}
+				}
+				if !renewed {
+					in.toInit(d)
 				}
 			}
 			time.Sleep(dhcpLease * 3 / 5)
@@ -286,6 +406,25 @@ func (in *dhcpInst) Apply(e core.Event) map[string]any {
 	}
 	st1, sp1 := in.acct.counts()
 	return res(n, acked, skipped, diff(st1, st0), diff(sp1, sp0), nil)
+}
+
+// toInit: the client knows its lease is over (it released / declined it, or its lease time ran
+// out unrenewed) and is back in INIT: it will not renew. It keeps the address it last held (a
+// second RELEASE / DECLINE names it).
+//
+// Walled-garden variant only: it also forgets the offer it had selected, i.e. it follows the
+// RFC 2131 client state machine and REQUESTs only an address the server offered it since it
+// last was in INIT. In that mode handleRequest by design acknowledges ANY address a client
+// without a lease asks for ("Accepting Nexus-allocated IP in REQUEST", no check against the
+// pool or Nexus), so a REQUEST for a stale offer creates a session on an address the pool does
+// not hold for it - a weakness of the mode itself (reported), not of a session-ending path.
+// Without the HTTP allocator requestedIPBelongsToClient refuses such a REQUEST, and the stale
+// offer stays in the alphabet.
+func (in *dhcpInst) toInit(c int) {
+	in.bound[c] = false
+	if in.s.Nexus {
+		delete(in.lastOffer, c)
+	}
 }
 
 func (in *dhcpInst) observe() *obs {
@@ -389,7 +528,7 @@ func (in *dhcpInst) Fingerprint() string {
 	for c := 1; c <= len(in.s.Kinds); c++ {
 		o, ok1 := in.lastOffer[c]
 		a, ok2 := in.lastAddr[c]
-		cl = append(cl, fmt.Sprintf("%d:%v%d,%v%d", c, ok1, o, ok2, a))
+		cl = append(cl, fmt.Sprintf("%d:%v%d,%v%d,%v", c, ok1, o, ok2, a, in.bound[c]))
 	}
 	return strings.Join(parts, ";") + "|A:" + strings.Join(al, ",") + "|V:" + strings.Join(av, ",") + "|U:" + strings.Join(ps.Unavailable, ",") +
 		"|M:" + strings.Join(mp, ";") + "|H:" + strings.Join(cl, ";") +
